@@ -6,7 +6,6 @@ import (
 	"math/rand/v2"
 	"os"
 	"path/filepath"
-	"runtime"
 	"sort"
 	"time"
 
@@ -179,15 +178,17 @@ func runScenario(c *corr.Ctx, sc *Scenario, name string, st *runStats) {
 	st.runs++
 	h := &harness{sc: sc, pk: genPackets(sc)}
 	tStart := time.Now()
-	watchdog := time.AfterFunc(120*time.Second, func() {
-		b, _ := json.Marshal(sc)
-		buf := make([]byte, 1<<20)
-		n := runtime.Stack(buf, true)
-		fmt.Fprintf(os.Stderr, "scenario %s does not finish (deadlock?): %s\n%s\n", name, b, buf[:n])
-		panic("pipe: scenario " + name + " did not finish within 120 s")
+	var err error
+	finished := false
+	// a scenario that does not finish (a deadlock in the code under test) is a violation with the
+	// scenario as replay (key pipe-hang), a panic likewise
+	c.Guard("C01", "pipe", sc, 150*time.Second, func() {
+		err = h.run()
+		finished = true
 	})
-	err := h.run()
-	watchdog.Stop()
+	if !finished {
+		return
+	}
 	if os.Getenv("PIPE_DEBUG") != "" {
 		fmt.Fprintf(os.Stderr, "-- %s took %v (write phase %v)\n", name, time.Since(tStart).Round(time.Millisecond), h.tWrite.Round(time.Millisecond))
 	}
